@@ -459,16 +459,28 @@ def explore_config(task):
     roots = task[6] if len(task) > 6 else None
     queries = []
     npaths = 0
-    tag = "run/%s/K%d%s" % (path.replace(".ini", ""), K, ("/s" + "".join(str(int(c)) for _, c in start)) if start else "")
-    info = {"config": path, "K": K, "replay": "run"}
+    K, Q = split_kq(K)
+    tag = "run/%s/K%d%s%s" % (path.replace(".ini", ""), K, ("q%d" % Q) if Q > 1 else "",
+                              ("/s" + "".join(str(int(c)) for _, c in start)) if start else "")
+    info = {"config": path, "K": [K, Q], "replay": "run"}
+    K = (K, Q)
     os.makedirs(scratch, exist_ok=True)
     stats = {"commits": 0, "handlers": set()}
     run = make_config_run(path, K, scratch, want_props, roots, stats)
     return _explore(run, task, tag, info, stats, start, frontier_depth)
 
 
+def split_kq(K):
+    """K events per run; the first Q of them restricted to handlers with their own clock (start of run, sampling,
+    end of chain, end of run, mode switch, dumping) -- the `quiet prefix' slices of longer histories."""
+    if isinstance(K, (tuple, list)):
+        return int(K[0]), int(K[1])
+    return int(K), 1
+
+
 def make_config_run(path, K, scratch, want_props, roots, stats):
     os.makedirs(scratch, exist_ok=True)
+    K, Q = split_kq(K)
 
     def run(ex):
         cwd = os.getcwd()
@@ -506,7 +518,7 @@ def make_config_run(path, K, scratch, want_props, roots, stats):
             _, undo = jf.patch_math_random(later, ex, rnd=rnd, math_shim=RunMathShim())
             undos.append(undo)
             undos.append(silence_warnings())
-            monitor = Monitor(ex, mediator, K, want_props, stats)
+            monitor = Monitor(ex, mediator, K, want_props, stats, Q)
             monitor.install()
             try:
                 mediator.run()
@@ -573,10 +585,11 @@ def _explore(run, task, tag, info, stats, start, frontier_depth):
 
 # ------------------------------------------------------------------------------------------------ monitors
 class Monitor(object):
-    def __init__(self, ex, mediator, K, want_props, stats):
+    def __init__(self, ex, mediator, K, want_props, stats, Q=1):
         self.ex = ex
         self.m = mediator
         self.K = K
+        self.Q = Q
         self.want = want_props
         self.stats = stats
         self.commits = 0
@@ -635,7 +648,16 @@ class Monitor(object):
                 raise SchedulerError("The succeeding event was requested but the scheduler does not contain any events.")
             finite = [e for e in sched._times if not _is_inf_time(e.time)]
             cands = finite or list(sched._times)
-            i = mon.ex.choose(len(cands))
+            if mon.commits < mon.Q and finite:
+                # quiet prefix: this commit is one of the handlers with their own clock (the path assumes it precedes
+                # every pending interaction / cell event); histories in which none is pending are outside the slice
+                pool = [j for j, o in enumerate(cands) if mon.is_quiet(o.event_handler)]
+                if not pool:
+                    mon.ex.assume(z3.BoolVal(False))
+                    raise symx.PathAbort()
+                i = pool[mon.ex.choose(len(pool))]
+            else:
+                i = mon.ex.choose(len(cands))
             e = cands[i]
             if finite:
                 vi = jf.time_value(e.time)
@@ -678,6 +700,15 @@ class Monitor(object):
             mon.on_write(name, args)
         io.write = write
         io.post_run = lambda: None
+
+    def is_quiet(self, h):
+        from jellyfysh.activator.tagger.no_in_state_tagger import NoInStateTagger
+        from jellyfysh.activator.tagger.active_global_state_in_state_tagger import ActiveGlobalStateInStateTagger
+        from jellyfysh.activator.tagger.active_root_unit_in_state_tagger import ActiveRootUnitInStateTagger
+        for tagger in self.m._activator._taggers:
+            if any(h is x for x in tagger.get_event_handlers()):
+                return isinstance(tagger, (NoInStateTagger, ActiveGlobalStateInStateTagger, ActiveRootUnitInStateTagger))
+        return False
 
     def _wrap_handler(self, h):
         mon = self
@@ -775,6 +806,8 @@ class Monitor(object):
                     z3.And(speed2 == self.speed, *[z3.And(*[a == b for a, b in zip(G[i][1], v0)]) for i in moving]))
         # C12: composite objects consistent with their point masses
         roots = [i for i in G if len(i) == 1 and any(len(j) == 2 and j[0] == i[0] for j in G)]
+        if "C12" not in self.want:
+            roots = []       # the compactness assumption below belongs to C12 only
         for r in roots:
             kids = sorted(j for j in G if len(j) == 2 and j[0] == r[0])
             kv = [G[j][1] for j in kids]
